@@ -546,8 +546,8 @@ def compose(template_text, repo_root, read_file):
                     (before if s.startswith("//@BEFORE") else after).append((int(parts[1]), parts[2], cur))
                 elif s.startswith("//@REWRITE"):
                     parts = s.split(None, 2)
-                    frm, to = parts[2].split(" ==> ")
-                    rew.append((parts[1], frm, to))
+                    frm, to = parts[2].split("==>", 1)
+                    rew.append((parts[1], frm.strip(), to.strip()))
                     cur = None
                 elif cur is not None:
                     cur.append(lines[i])
